@@ -46,10 +46,14 @@ CallOk(ev) == /\ ~ev.raised
               /\ ev.cls = "blank" => ev.blankfb
               /\ ~Rejected(ev.cls) => ev.tree_ok
               /\ (Rejected(ev.cls) /\ ev.line # 0 /\ ev.tbline # 0) => ev.tbline = ev.line + ev.offset
+              \* msgline: a line the PARSER's own message quotes ("... after 'if' statement on line K"), fbmsgline: the number
+              \* standing there in the text the learner reads (0 = none)
+              /\ (Rejected(ev.cls) /\ ev.msgline # 0 /\ ev.fbmsgline # 0) => ev.fbmsgline = ev.msgline + ev.offset
 FailMask(ev) == (IF ev.raised THEN 1 ELSE 0)
               + (IF ~ev.raised /\ ((ev.nsyntax >= 1) # Rejected(ev.cls)) THEN 2 ELSE 0)
               + (IF ~ev.raised /\ Rejected(ev.cls) /\ ev.line # 0 /\ ev.nsyntax >= 1 /\ ev.fbline # ev.line + ev.offset THEN 4 ELSE 0)
               + (IF ~ev.raised /\ ev.cls = "blank" /\ ~ev.blankfb THEN 8 ELSE 0)
               + (IF ~ev.raised /\ ~Rejected(ev.cls) /\ ~ev.tree_ok THEN 16 ELSE 0)
               + (IF ~ev.raised /\ Rejected(ev.cls) /\ ev.line # 0 /\ ev.tbline # 0 /\ ev.tbline # ev.line + ev.offset THEN 32 ELSE 0)
+              + (IF ~ev.raised /\ Rejected(ev.cls) /\ ev.msgline # 0 /\ ev.fbmsgline # 0 /\ ev.fbmsgline # ev.msgline + ev.offset THEN 64 ELSE 0)
 =============================================================================
